@@ -11,6 +11,7 @@ import Driver.Channel
 import Driver.Lifecycle
 import Driver.ServiceLife
 import Driver.ServiceCrash
+import Driver.PortCrash
 import Driver.RelPtr
 import Driver.ReqRes
 import Driver.WaitSet
@@ -63,6 +64,7 @@ def components : List (String × Comp) := [
   ("lifecycle", LifecycleD.comp),
   ("svclife", ServiceLifeD.comp),
   ("svccrash", ServiceCrashD.comp),
+  ("portcrash", PortCrashD.comp),
   ("relptr", RelPtrD.comp),
   ("reqres", ReqResD.comp),
   ("waitset", WaitSetD.comp),
